@@ -537,9 +537,20 @@ class Tr:
         x, xk = t.ex(a.elt)
         if t.lines: self.no(e, 'sum with a look-up')
         if xk == 'xval':
-            ok = (len(gen.ifs) == 1 and isinstance(gen.ifs[0], ast.Call) and is_np(gen.ifs[0].func, 'isfinite')
-                  and len(gen.ifs[0].args) == 1 and ast.dump(gen.ifs[0].args[0]) == ast.dump(a.elt))
+            # guard: [P and … and] np.isfinite(E) — the leading conjuncts select branches (a filter,
+            # evaluated first as Python's `and` does), the last one keeps exactly the finite values
+            guards = []
+            if len(gen.ifs) == 1:
+                guards = list(gen.ifs[0].values) if isinstance(gen.ifs[0], ast.BoolOp) and isinstance(gen.ifs[0].op, ast.And) else [gen.ifs[0]]
+            fin = guards[-1] if guards else None
+            ok = (isinstance(fin, ast.Call) and is_np(fin.func, 'isfinite')
+                  and len(fin.args) == 1 and ast.dump(fin.args[0]) == ast.dump(a.elt))
             if not ok: self.no(e, 'sum of element properties without the np.isfinite guard on the same expression')
+            for c in guards[:-1]:
+                tc = self.sub({v: (v, sk[1])})
+                pc = tc.cond(c, 'bool')
+                if tc.lines: self.no(c, 'sum guard with a look-up')
+                src = f'({src}.filter fun ({v} : {lean_ty(sk[1])}) => {pc})'
             return (f'(({src}.filterMap fun ({v} : {lean_ty(sk[1])}) => Py.XVal.finite? {x}).sum)', 'num')
         if xk == 'num' and not gen.ifs:
             return (f'(({src}.map fun ({v} : {lean_ty(sk[1])}) => {x}).sum)', 'num')
@@ -721,11 +732,16 @@ class Tr:
                     v, k = t.ex(st.value)
                     t.env[st.targets[0].id] = (v, k)
                     continue
-                if not (isinstance(st, ast.If) and not st.orelse and len(st.body) == 1 and isinstance(st.body[0], ast.Assign)):
+                if not (isinstance(st, ast.If) and not st.orelse and len(st.body) == 1 and isinstance(st.body[0], (ast.Assign, ast.AugAssign))):
                     self.no(st, 'column loop body outside the grammar')
                 g = t.cond(st.test, 'prop')
                 w = st.body[0]
-                tg = w.targets[0]
+                # `M[r][c] = v` overwrites the entry, `M[r][c] += v` / `-= v` accumulates into it
+                aug = None
+                if isinstance(w, ast.AugAssign):
+                    aug = {'Add': '+', 'Sub': '-'}.get(type(w.op).__name__)
+                    if aug is None: self.no(st, 'augmented write outside the grammar (only += and -=)')
+                tg = w.target if aug else w.targets[0]
                 if not (isinstance(tg, ast.Subscript) and isinstance(tg.value, ast.Subscript) and isinstance(tg.value.value, ast.Name)
                         and tg.value.value.id in self.pending):
                     self.no(st, 'guarded write does not target the pending array')
@@ -739,6 +755,7 @@ class Tr:
                 x, xk = t.ex(ri.slice)
                 if xk != rows[1][1]: self.no(st, 'row key of the wrong kind')
                 val = t.num(t.ex(w.value), w)
+                if aug: val = f'(q {aug} {val})'
                 t.lines.append(f'let q : K := if {g} ∧ {x} = row then {val} else q')
             if name is None: self.no(s, 'column loop without a write')
             self.pending.pop(name)
